@@ -17,6 +17,7 @@ theorem skel_storedSessionLoader_refreshSessionIfNeeded_ok : skel_storedSessionL
   "defer",
   "for !lockObtained",
   "return errors.New(\"timeout obtaining session lock\")",
+  "errors.New",
   "session.ObtainLock",
   "if err != nil && !errors.Is(err, sessionsapi.ErrLockNotObtained)",
   "return fmt.Errorf(\"error occurred while trying to obtain lock: %v\",",
@@ -32,6 +33,7 @@ theorem skel_storedSessionLoader_refreshSessionIfNeeded_ok : skel_storedSessionL
   "return fmt.Errorf(\"could not load session: %v\", err)",
   "if freshSession == nil",
   "return errors.New(\"session no longer exists, it may have been remov",
+  "errors.New",
   "if !needsRefresh(s.refreshPeriod, session)",
   "needsRefresh",
   "return nil",
@@ -57,9 +59,11 @@ theorem skel_storedSessionLoader_validateSession_ok : skel_storedSessionLoader_v
   "if session.IsExpired()",
   "session.IsExpired",
   "return errors.New(\"session is expired\")",
+  "errors.New",
   "if !s.sessionValidator(ctx, session)",
   "s.sessionValidator",
   "return errors.New(\"session is invalid\")",
+  "errors.New",
   "return nil"] : List String) := rfl
 
 theorem skel_storedSessionLoader_getValidatedSession_ok : skel_storedSessionLoader_getValidatedSession = ([
@@ -82,5 +86,21 @@ theorem skel_storedSessionLoader_loadSession_ok : skel_storedSessionLoader_loadS
   "s.store.Clear",
   "if err != nil",
   "next.ServeHTTP"] : List String) := rfl
+
+theorem skel_Lock_Obtain_ok : skel_Lock_Obtain = ([
+  "l.locker.Obtain",
+  "if errors.Is(err, redislock.ErrNotObtained)",
+  "return sessions.ErrLockNotObtained",
+  "if err != nil",
+  "return err",
+  "return nil"] : List String) := rfl
+
+theorem skel_Lock_Release_ok : skel_Lock_Release = ([
+  "if l.lock == nil",
+  "return sessions.ErrNotLocked",
+  "l.lock.Release",
+  "if errors.Is(err, redislock.ErrLockNotHeld)",
+  "return sessions.ErrNotLocked",
+  "return err"] : List String) := rfl
 
 end O2P.Expect.C12
